@@ -17,6 +17,7 @@
 #include "jls/reader.h"
 #include "jls/core.h"
 #include "jls/backend.h"
+#include "jls/crc32c.h"
 #include "jls/raw.h"
 #include "jls/track.h"
 #include "jls/format.h"
@@ -52,6 +53,51 @@ struct jls_rd_s {
     }                                   \
 } while (0)
 
+
+/**
+ * @brief Complete a link update that the writer did not finish.
+ *
+ * The writer appends a chunk and then rewrites the header of the previous
+ * chunk in the same list to set its item_next.  When the writer stops inside
+ * that 32-byte rewrite, the previous chunk is left with a prefix of the new
+ * header over the old one, and its header CRC no longer matches.
+ * Restore it only if the bytes on disk are exactly such a mix.
+ *
+ * @param core The core instance, opened for append.
+ * @param pos The offset of the last complete chunk, whose header is in chunk_cur.
+ */
+static int32_t repair_torn_link(struct jls_core_s * core, int64_t pos) {
+    struct jls_bkf_s * backend = jls_raw_backend(core->raw);
+    int64_t prev = (int64_t) core->chunk_cur.hdr.item_prev;
+    struct jls_chunk_header_s h_disk;
+    struct jls_chunk_header_s h_old;
+    struct jls_chunk_header_s h_new;
+    uint8_t mix[sizeof(struct jls_chunk_header_s)];
+    if ((prev <= 0) || (prev >= pos)) {
+        return 0;
+    }
+    ROE(jls_bk_fseek(backend, prev, SEEK_SET));
+    if (jls_bk_fread(backend, &h_disk, sizeof(h_disk)) || (jls_crc32c_hdr(&h_disk) == h_disk.crc32)) {
+        return jls_raw_seek_end(core->raw);  // unreadable or intact: nothing to do
+    }
+    h_old = h_disk;
+    h_old.item_next = 0;
+    h_old.crc32 = jls_crc32c_hdr(&h_old);
+    h_new = h_disk;
+    h_new.item_next = (uint64_t) pos;
+    h_new.crc32 = jls_crc32c_hdr(&h_new);
+    for (size_t k = 1; k < sizeof(mix); ++k) {
+        memcpy(mix, &h_new, k);
+        memcpy(mix + k, ((uint8_t *) &h_old) + k, sizeof(mix) - k);
+        if (0 == memcmp(mix, &h_disk, sizeof(mix))) {
+            JLS_LOGW("chunk %" PRIi64 ": completing interrupted link to %" PRIi64, prev, pos);
+            ROE(jls_bk_fseek(backend, prev, SEEK_SET));
+            ROE(jls_bk_fwrite(backend, &h_new, sizeof(h_new)));
+            break;
+        }
+    }
+    return jls_raw_seek_end(core->raw);
+}
 
 int32_t jls_rd_open(struct jls_rd_s ** instance, const char * path) {
     int32_t rc = 0;
@@ -112,6 +158,7 @@ int32_t jls_rd_open(struct jls_rd_s ** instance, const char * path) {
         // rewrite last full chunk to update payload_prev_length
         GOE(jls_raw_chunk_seek(core->raw, pos));
         GOE(jls_raw_wr(core->raw, &core->chunk_cur.hdr, core->buf->cur));
+        GOE(repair_torn_link(core, pos));
 
         for (uint16_t signal_idx = 0; signal_idx < JLS_SIGNAL_COUNT; ++signal_idx) {
             struct jls_core_signal_s * signal_info = &core->signal_info[signal_idx];
